@@ -59,8 +59,17 @@ impl DestructTuple {
                 elements.iter().map(|ins| &ins.instruction),
             )),
             instruction => {
-                let types = instruction.return_type().flatten_tuple().unwrap();
-                local_variables.extend(zip(self.idents.iter().cloned(), types.iter().cloned()))
+                // an initialiser of type ! (it was folded to a statement that never yields) binds names of type !
+                match instruction.return_type().flatten_tuple() {
+                    Some(types) => local_variables
+                        .extend(zip(self.idents.iter().cloned(), types.iter().cloned())),
+                    None => local_variables.extend(
+                        self.idents
+                            .iter()
+                            .cloned()
+                            .map(|ident| (ident, crate::variable::Type::Never)),
+                    ),
+                }
             }
         }
     }
